@@ -1,4 +1,4 @@
 SPECIFICATION Spec
 CONSTANTS Mutant = "none"
-INVARIANTS PropertyHolds NoSilentSkip UntrustedCA NeverOldTLS CertPresented
+INVARIANTS PropertyHolds NoSilentSkip UntrustedCA NeverOldTLS CertPresented StableIdentity
 CHECK_DEADLOCK FALSE
